@@ -15,7 +15,11 @@ def run(c):
     c.assumptions += ['failing elements are: <send> with an unsupported type (error.execution), <send> to an unknown #_ target (error.communication), '
                       '<log>/<assign> with an ill-formed expression, ill-formed conditions of <if>/<elseif>/<transition> (error.execution); rendered per datamodel',
                       'memory safety of code outside the model (Xerces, Lua VM, libevent) is exercised (thorough: under ASan/UBSan), not proved',
-                      'evaluator crash-freedom of the Promela datamodel is C17, of the JSON parser C15']
+                      'evaluator crash-freedom of the Promela datamodel is C17, of the JSON parser C15',
+                      'fault matrix: a condition that fails counts as false and raises error.execution, whether the rest of the block runs is not judged (the engines go on, as Exec.v models); '
+                      'a document that cannot be loaded (<script src> unreachable, W3C test 301) is rejected by an exception from the first step() by design and is not part of the matrix; '
+                      'an undeclared <foreach> item/index is declared, not an error (SCXML 4.6)',
+                      'the sites outside Exec.v (finalize, donedata, <content expr>, <param>, undeliverable sends, invoke arguments) are modelled in ExecFaults.v; their tie to the code is the fault matrix']
     disagreements, crashes = [], []
     nontriv = set()
     nerr = 0
@@ -36,12 +40,27 @@ def run(c):
                     disagreements.append((i, d))
     # malformed / arbitrary documents built from SCXML vocabulary: must not crash
     mal = malformed_stream(c)
-    c.cov['evaluations'] = 2 * len(fcases) + mal['documents']
-    c.cov['distinct_nontrivial'] = len(nontriv)
+    # document-level construct x fault matrix (tools/c07_faults.py): every evaluation site x every fault kind of the datamodel
+    fstats, ffind = fault_matrix(c)
+    c.cov['evaluations'] = 2 * len(fcases) + mal['documents'] + fstats['runs']
+    c.cov['distinct_nontrivial'] = len(nontriv) + fstats['runs_with_error_event']
+    c.cov['fault_matrix'] = fstats
     c.cov['rule'] = ('charts of the reference fragment with failing elements injected at random positions of onentry/onexit/transition blocks and '
                      'conditions (three datamodels, both engines): the large engine trace must equal the trace of Large.v+Exec.v (whose error protocol is '
                      'what the theorems are about) and no run may crash; plus arbitrary well-formed XML built from SCXML vocabulary, validated and - unless validation reports a fatal issue - interpreted for a '
-                     'bounded number of steps, in child processes; non-trivial = distinct run in which at least one error.* event was processed')
+                     'bounded number of steps, in child processes; plus the document-level fault matrix: for every place where the interpreter evaluates an '
+                     'expression or executes content (%d sites: attributes and children of assign/log/send/cancel/foreach/script/if/elseif/transition/data/invoke/'
+                     'donedata, %d kinds of blocks: onentry, onexit, transition, initial and history transitions, finalize, nested if/else/foreach) and every fault kind '
+                     '(lua %d, promela %d: syntax error, run-time errors with string / nil / table error values, nil arithmetic, division and modulo by zero, '
+                     'INT_MIN / -1, index out of range, illegal locations, unsupported types, undeliverable targets without and with delay) a small document with '
+                     'markers before and behind the failing element and in the next block, run by both engines in child processes (c07run) and judged by the '
+                     'property oracle alone (no exception out of step(), no crash, no hang, exactly one error event of the expected name in queue order, rest of '
+                     'the block skipped, next block run, interpreter reaches its final state afterwards); every site has a control document (well-formed '
+                     'expression) for which the oracle demands the opposite; hand-confirmed witnesses (corpus/c07.json) run first; the runs of the sites '
+                     'modelled in ExecFaults.v are also compared with the outcome class (no error / error event / escaped) that ExecFaults.outcomes computes '
+                     '(coqc vm_compute) for the variant the witnesses select; '
+                     'non-trivial = distinct run in which at least one error.* event was processed'
+                     % (fstats['sites'], fstats['block_kinds'], fstats['fault_kinds']['lua'], fstats['fault_kinds']['promela']))
     c.cov['runs_with_error_events'] = nerr
     c.cov['model_disagreements'] = len(disagreements)
     c.cov['crashes'] = len(crashes)
@@ -55,16 +74,33 @@ def run(c):
             c.known(f['id'], f['what'])
         else:
             c.violation(d)
+    for f in ffind:
+        k = c.match_known({'class': f['class']})
+        if k:
+            c.known(k['id'], k['what'])
+        else:
+            f = dict(f)
+            f['kind'] = 'fault-matrix'
+            c.violation(f, no_input=(f['class'] == 'model-disagreement' and not f.get('oracle_failure')))
     if disagreements:
         i, d = sorted(disagreements, key=lambda x: len(G.sx_tree(fcases[x[0]]['tree'])))[0]
         p = d[0] or 0
         # the model is the statement of the error protocol: a disagreement is an oracle failure
         c.violation(case_replay(c, fcases[i], {'kind': 'oracle', 'count': len(disagreements), 'what': 'error handling differs from Exec.v/Large.v',
                                                'expected': ' '.join(d[2][max(0, p - 10):p + 10]), 'observed': ' '.join(d[1][max(0, p - 10):p + 10])}))
-    if broken and not disagreements and not crashes:
+    if broken and not disagreements and not crashes and not ffind:
         for b in broken:
             c.violation({'kind': 'obligation', 'theorem': b['name'], 'why': b.get('why', '')}, no_input=True)
     return c.finish()
+
+
+def fault_matrix(c):
+    """construct x fault matrix of tools/c07_faults.py on the hook build; returns (stats, findings: one per failing class,
+    with the smallest failing document)"""
+    import c07_faults
+    vd = ensure_vdriver('hooks', units=['vd_run', 'vd_c07'])
+    with Lock('coq'):      # ExecFaults.vo is read by the evaluation of the model
+        return c07_faults.run_stream(vd, c.tier, coqdir=COQ, workdir=os.path.join(BUILD, 'c07-faults'))
 
 
 def malformed_stream(c):
